@@ -93,6 +93,7 @@ class Program:
         self.model_patterns = []  # (compiled regex on canonical key, callable)
         self.by_key = {}          # canonical crate key -> def name (None when ambiguous)
         self.closures = {}        # span -> def name
+        self.full = {}            # stripped full def name -> def name
         self.struct_fields = {}   # tag -> [names]
         self.variants = {}        # variant tag -> index (crate enums, read from source)
         self.const_models = []
@@ -139,7 +140,7 @@ class Program:
                 a1 = mirmod.split_top(r[1])[0]
                 m = re.search(r'\{closure@([^}]+)\}', a1.split(': ', 1)[1]) if '_1: ' in a1 else None
                 if m and '{closure#' in name.split('::')[-1]:
-                    self.closures[m.group(1)] = name
+                    self.closures['closure@' + m.group(1)] = name
             m = _IMPL.match(name)
             if m:
                 modp, f, ln, col, _, _, rest = m.groups()
@@ -158,9 +159,8 @@ class Program:
                     self._add_key('<%s as %s>::%s' % (ty, tr, rest_s), name)
             else:
                 s = strip_generics(name)
-                segs = s.split('::')
-                for k in range(len(segs)):
-                    self._add_key('::'.join(segs[k:]), name)
+                self.full[s] = name
+                self._add_key(s, name)
 
     def _enum_index(self):
         """variant order of the crate's own enums, from the source (needed for discriminant())"""
@@ -266,13 +266,6 @@ class Program:
         d = self.by_key.get(key)
         if d is None and key.startswith('<'):
             d = None
-        if d is None:
-            # call-site path may be longer than the (trimmed) definition path, or shorter
-            segs = key.split('::') if not key.startswith('<') else None
-            if segs:
-                for k in range(1, len(segs)):
-                    d = self.by_key.get('::'.join(segs[k:]))
-                    if d: break
         if d is not None and self.module.raw[d][0] == 'fn':
             f = self.module.fn(d)
             return ('fn', f, key)
